@@ -210,7 +210,8 @@ def run_suite(R, ctx, binary, nscen):
         total.update(st)
         conns[max(int(l.split()[2]) for l in sc if l.startswith("RZ w ")) if any(l.startswith("RZ w ") for l in sc) else 0] += 1
     obs, d, se, rc = _judge(binary, lines)
-    core.negative_control(R, obs, "rendezvous", skip=lambda l: not l.startswith("RZ c ") or " => " not in l)
+    if not any(" x:hang" in l for l in obs):   # after a hang the stream is cut short and the control's damaged lines would be judged on a broken world
+        core.negative_control(R, obs, "rendezvous", skip=lambda l: not l.startswith("RZ c ") or " => " not in l)
     replies = sum(l.count(" r:") for l in obs)
     proposals = sum(l.count(" p:") for l in obs)
     hangs = sum(1 for l in obs if " x:" in l)
@@ -226,7 +227,17 @@ def run_suite(R, ctx, binary, nscen):
     R.suites.append(dict(name="rendezvous", scenarios=nscen, lines=len(obs), replies_compared=replies, proposals=proposals,
                          lines_with_delivery=pos, harness_gave_up=hangs, mismatches=len(d["mismatches"]), driver_s=round(d["seconds"], 1)))
     R.extra.setdefault("input_distribution", {})["rendezvous"] = dict(scenarios=nscen, connections_per_scenario=dict(conns), **dict(total))
-    if len(obs) < len(lines):
+    hung = [i for i, l in enumerate(obs) if " x:hang" in l]
+    if hung:
+        # the engine ends a scenario at its first hang and stops after three: the observed stream is shorter than the input by design
+        at = hung[0]
+        start = max(i for i in range(at + 1) if obs[i].startswith("RZ new"))
+        R.violation("rendezvous-hang-" + core.sha(" ".join(obs[start:at + 1])), dict(
+            kind="impl-violates-spec", engine="rendezvous", lines=[l.split(" => ")[0] for l in obs[start:at + 1]], observed=obs[start:at + 1],
+            summary="a reply or a proposal that is due never arrived (6 s): %s" % obs[at][:300],
+            explanation="a command read from a connection got no reply (or its connection never proposed): the rendezvous between the apply loop and the "
+                        "waiting connection lost a wake-up or delivered the result elsewhere"))
+    elif len(obs) < len(lines):
         at = len(obs)
         start = max(i for i in range(at + 1) if lines[i] == "RZ new")
         R.violation("rendezvous-crash-" + core.sha(" ".join(lines[start:at + 1])), dict(
